@@ -170,13 +170,15 @@ class RemoteContext(SupportRemoteGetState):
             state_patches = {
                 '_socket': cli,
                 '_reset_sigterm_hnd': True,
+                '_registry': self._children,
                 '_target': self._target,
                 '_args': self._args,
                 '_kwargs': self._kwargs,
                 **self._extra_state
             }
             child = recv_msg(cli, state_patches, comment='context: remote worker')
-            self._children.append(child)
+            if not any(c is child for c in self._children): # normally the child registers itself as soon as it exists
+                self._children.append(child)
             return True
         except ConnectionClosedError:
             return False
